@@ -111,6 +111,9 @@ type Config struct {
 // Sim is one simulated execution.
 type Sim struct {
 	mu        sync.Mutex
+	traceBuf  []string // lines queued by managed goroutines, written by the scheduler
+	traceN    int
+	traceLost int
 	all       []*G // live managed goroutines; preallocated, never regrown (see spawn)
 	seamSeed  uint64
 	schedSync int64 // address used for the goroutine -> scheduler happens-before edge
@@ -518,7 +521,57 @@ func Tracef(format string, a ...any) {
 	if s == nil || s.cfg.Trace == nil {
 		return
 	}
-	s.cfg.Trace("    " + fmt.Sprintf(format, a...))
+	// Lines from managed goroutines are queued and written by the scheduler: the trace writer is then touched by
+	// one goroutine only (the scheduler's hand-offs are invisible to the race detector, so a shared writer would
+	// be reported - and would make a -race worker's outcome depend on when the detector notices).
+	s.tracePush("    " + fmt.Sprintf(format, a...))
+}
+
+//go:norace
+func (s *Sim) tracePush(line string) {
+	raceOff()
+	s.mu.Lock()
+	if s.traceN < len(s.traceBuf) {
+		s.traceBuf[s.traceN] = line
+		s.traceN++
+	} else {
+		s.traceLost++
+	}
+	s.mu.Unlock()
+	raceOn()
+}
+
+// traceTake returns queued line i, or false when the queue is exhausted (and resets it).
+//
+//go:norace
+func (s *Sim) traceTake(i int) (string, bool) {
+	s.mu.Lock()
+	defer s.mu.Unlock()
+	if i < s.traceN {
+		l := s.traceBuf[i]
+		s.traceBuf[i] = ""
+		return l, true
+	}
+	s.traceN = 0
+	return "", false
+}
+
+// flushTrace writes the queued lines (scheduler goroutine, or after the run).
+func (s *Sim) flushTrace() {
+	if s.cfg.Trace == nil {
+		return
+	}
+	for i := 0; ; i++ {
+		l, ok := s.traceTake(i)
+		if !ok {
+			break
+		}
+		s.cfg.Trace(l)
+	}
+	if s.traceLost > 0 {
+		s.cfg.Trace(fmt.Sprintf("    (%d trace lines lost: queue full)", s.traceLost))
+		s.traceLost = 0
+	}
 }
 
 // Now is the simulated clock relative to the start of the run.
@@ -551,6 +604,9 @@ func Run(t *testing.T, cfg Config, main func(s *Sim)) (out Outcome) {
 		SitesSeen: map[int]int{},
 		PairsSeen: map[uint64]struct{}{},
 	}
+	if cfg.Trace != nil {
+		s.traceBuf = make([]string, 8192)
+	}
 	// The bubble runs on a goroutine of its own: when the race detector reported something during the
 	// bubble, the testing package fails the test with FailNow (runtime.Goexit), which must not take the
 	// worker's loop with it.
@@ -579,6 +635,7 @@ func Run(t *testing.T, cfg Config, main func(s *Sim)) (out Outcome) {
 			defer active.Store(nil)
 			s.spawn("main", func() { main(s) })
 			s.loop(&out)
+			s.flushTrace()
 			out.FakeElapsed = time.Since(s.start)
 		})
 	}()
@@ -722,6 +779,7 @@ func (s *Sim) loop(out *Outcome) {
 		s.hash = fnvAdd(s.hash, g.Name)
 		s.hash = fnvAddInt(s.hash, g.site)
 		if s.cfg.Trace != nil {
+			s.flushTrace()
 			s.cfg.Trace(fmt.Sprintf("%d %s @%s", s.steps, g.Name, SiteLabel(g.site)))
 		}
 		s.cur = g
